@@ -208,11 +208,29 @@ pub fn operation(p: &mut Parser<'_>, mut skip: Skip) -> Result<Option<Skip>> {
             stack.push((open.clone(), priority, extra));
         }
 
-        while let Some(prev) = stack.last_mut() {
+        loop {
+            let below = stack.len().checked_sub(2).map(|n| stack[n].1);
+
+            let Some(prev) = stack.last_mut() else {
+                break;
+            };
+
             match priority.cmp(&prev.1) {
                 Ordering::Less => {
                     p.close_at(&prev.0, OPERATION)?;
-                    *prev = (prev.0.clone(), priority, extra);
+
+                    // Only take over the closed group if the operation
+                    // below it binds weaker than the new operator,
+                    // otherwise the operator continues that operation.
+                    match below {
+                        Some(below) if below >= priority => {
+                            stack.pop();
+                        }
+                        _ => {
+                            *prev = (prev.0.clone(), priority, extra);
+                        }
+                    }
+
                     continue;
                 }
                 Ordering::Greater => {
